@@ -206,6 +206,41 @@ class C15(Prop):
     def strategy(self, tier):
         return st.one_of(ops_case(), sched_case())
 
+    def machine(self, tier, collector):
+        """sequential interleavings in Hypothesis' stateful mode: rules construct a new object or run an existing one; every
+        history so far is evaluated as an ordinary (replayable) 'ops' case"""
+        from hypothesis.stateful import RuleBasedStateMachine, initialize, precondition, rule
+
+        prop = self
+
+        class Interleave(RuleBasedStateMachine):
+            def __init__(self):
+                super().__init__()
+                self.objs, self.order, self.broken = [], [], False
+
+            @initialize(a=obj(), b=obj())
+            def two_objects(self, a, b):
+                self.objs += [a, b]
+                self.order += [0, 1]  # first occurrence of an index = construction
+
+            @precondition(lambda self: len(self.objs) < 4 and not self.broken)
+            @rule(o=obj())
+            def construct(self, o):
+                self.objs.append(o)
+                self.order.append(len(self.objs) - 1)
+
+            @precondition(lambda self: not self.broken)
+            @rule(i=st.integers(0, 3))
+            def run(self, i):
+                self.order.append(i % len(self.objs))
+                case = {"kind": "ops", "objs": list(self.objs), "order": list(self.order)}
+                out = prop.evaluate(case)
+                collector.record(case, out)
+                if out.violations:
+                    self.broken = True
+
+        return Interleave
+
     def enumerated(self, tier):
         # steps of a thread: after_lex, after_yacc, before_parse x statements, done
         regex = {"src": {"t": "corpus", "item": REGEX_ITEMS[0]}, "ctor": {}, "run": {"output_mode": "hql"}}
